@@ -1,0 +1,12 @@
+//go:build verif
+
+// Verification hooks (build tag "verif" only; add-only; nothing here is compiled into normal builds).
+package standard
+
+// VerifC20BuilderBidsCacheLen is the number of slots for which builder bids are cached.
+func (s *Service) VerifC20BuilderBidsCacheLen() int {
+	s.builderBidsCacheMu.RLock()
+	defer s.builderBidsCacheMu.RUnlock()
+
+	return len(s.builderBidsCache)
+}
